@@ -312,9 +312,9 @@ func c13(c *Ctx) {
 	}
 	r.Floor("R13.1", counts["panic"], 5)
 	r.Floor("R13.2", counts["must"], 20)
-	r.Floor("R13.3", counts["slice"]+counts["index"], 22)
+	r.Floor("R13.3", counts["slice"]+counts["index"], 18)
 	r.Floor("R13.4", counts["depcall"], 3)
-	r.Floor("R13.5", counts["assert"], 7)
+	r.Floor("R13.5", counts["assert"], 5)
 	d.dependencyAssertions()
 	c.checkBoundedWork()
 	if f := os.Getenv("VERIF_BCE_FILE"); f != "" {
